@@ -99,7 +99,7 @@ fn gen(rng: &mut Rng, _idx: u64, tier: Tier) -> Case {
                 if ac.ca >= 4 && rng.chance(0.4) { ac.ca = rng.range(4, 7) as u64; }
                 (gen::frame(rng, ac, Kind::Df11, true), "df11".into())
             }
-            3 => { let k = *rng.pick(&[Kind::Ident, Kind::AirPos, Kind::Vel12]); (gen::frame(rng, ac, k, true), "df17".into()) }
+            3 => { let k = *rng.pick(&[Kind::Ident, Kind::AirPos, Kind::Vel12, Kind::SurfPos, Kind::SurfPos, Kind::Tc31]); (gen::frame(rng, ac, k, true), "df17".into()) }
             4 | 5 | 6 => { let mb = mb_bds17(ac.caps); (mk(rng, ac, mb), "bds17".into()) }
             7 => { let mb = mb_bds17(ac.caps) | (1u64 << rng.below(20)); (mk(rng, ac, mb), "bds17-reserved-bit".into()) }
             8 => { let mb = mb_bds20(pack_callsign(&gen::callsign(rng))); (mk(rng, ac, mb), "bds20".into()) }
